@@ -174,7 +174,7 @@ def call_real(case, tmp, tid, cli):
     sep = case.get("sep", ":")
     kw = {} if sep == ":" else {"sep_protein": sep}          # the CLI calls it without the argument
     cli = cli and sep == ":"
-    tr = {"sep": sep, "lines_in": lines_in, "nl_in": nl_in, "raised": "", "lines_out": [], "nl_out": False,
+    tr = {"mode": "convert", "sep": sep, "lines_in": lines_in, "nl_in": nl_in, "raised": "", "lines_out": [], "nl_out": False,
           "lines_out2": [], "nl_out2": False, "valid_in": False, "valid_out": False,
           "second_pass_equal": False, "cli": {"ran": False, "lines": [], "nl": False}}
     p_in = os.path.join(tmp, "c%d.pin" % tid)
@@ -187,6 +187,9 @@ def call_real(case, tmp, tid, cli):
     try:
         with open(p_in, "r") as f_pin:                       # mokapot.py:65-66
             tr["valid_in"] = bool(is_valid_tsv(f_pin))
+        if case.get("valid_only"):
+            tr["mode"] = "valid"
+            return tr
         step = "pin_to_valid_tsv(input)"
         try:
             with open(p_in, "r") as f_pin:                   # mokapot.py:70-72
@@ -254,6 +257,28 @@ def tlc_cases(cfg):
     return cases
 
 
+def valid_cases(cfg):
+    """shapes enumerated by TLC from PinValid.tla (data lines narrower / wider than the header) -> texts"""
+    r = run_tlc("PinValid", cfg, workers=4)
+    if not r.ok:
+        raise MachineryError("generation run failed: %s %s" % (r.violated, r.error))
+    out = []
+    for p in r.prints:
+        if not p or p[0] != "VCASE":
+            continue
+        h, w, dd, nl = int(p[1]), [int(x) for x in p[2]], bool(p[3]), bool(p[4])
+        lines = [["H%d" % j for j in range(h)]]
+        if dd:
+            lines.append(["DefaultDirection"] + ["-"] + ["%d" % (j % 2) for j in range(max(0, h - 2))])
+        for k, wd in enumerate(w):
+            lines.append(["r%dc%d" % (k, j) for j in range(wd)])
+        out.append({"source": "tlc-valid", "valid_only": True, "nfeat": h, "ppos": 0, "dd": "short" if dd else "none", "nl": nl,
+                    "prots": w, "text": to_text(lines, nl)})
+    if len(out) != r.distinct:
+        raise MachineryError("generation: %d VCASE lines for %d initial states" % (len(out), r.distinct))
+    return out
+
+
 def signature(c):
     return {"source": c["source"], "nfeat": c["nfeat"], "ppos": c["ppos"], "protein_column_last": c["ppos"] == c["nfeat"] + 5,
             "dd": c["dd"], "nl": c["nl"], "nrows": len(c["prots"]), "max_proteins": max(c["prots"] or [0])}
@@ -318,6 +343,8 @@ def run(ctx):
     ctx.model_check("PinTsv", "PinTsv_mut1.cfg", expect_violation="ConvertIsDef", note="seeded fault: protein slice ends one early")
     ctx.model_check("PinTsv", "PinTsv_mut2.cfg", expect_violation="OneLinePerPsmInv", note="seeded fault: DefaultDirection line converted, not dropped")
     ctx.model_check("PinTsv", "PinTsv_mut3.cfg", expect_violation="ValidIffDef", note="seeded fault: validity without the DefaultDirection test")
+    ctx.model_check("PinValid", "PinValid.cfg", note="is_valid_tsv on arbitrary shapes: header 1..3 fields, 1..4 data lines of 1..4 fields, DD y/n")
+    ctx.model_check("PinValid", "PinValid_mut.cfg", expect_violation="ResultIsDef", note="seeded fault: only lines wider than the header are rejected")
     r = ctx.model_check("PinTsv", "PinTsv_cov.cfg", coverage=True, note="action coverage (<=1 feature, <=2 lines, <=2 proteins)")
     ctx.require_actions(r, ["ReadHeader", "SecondDD", "SecondRow", "LoopLine", "Rerun", "Finish"])
     # ---------------- (G) ----------------
@@ -326,6 +353,7 @@ def run(ctx):
     for _ in range(400 if ctx.quick else 6000):
         cases.append(random_case(rng))
     cases.extend(ood_cases())
+    cases.extend(valid_cases("PinValid_gen.cfg" if ctx.quick else "PinValid_gen4.cfg"))
     # the protein separator is a parameter of the API (the CLI uses ":"): rotate it over the cases
     for k, c in enumerate(cases):
         if isinstance(c, dict):
@@ -347,7 +375,7 @@ def run(ctx):
         shutil.rmtree(tmp, ignore_errors=True)
     # ---------------- (V) ----------------
     verdicts = ctx.validate("PinTsvTrace", "Trace.cfg", traces)
-    in_domain = []
+    in_domain, valid_acc = [], []
     for tid, c in enumerate(cases, 1):
         v = verdicts[tid]
         tr = traces[tid - 1]
@@ -362,6 +390,8 @@ def run(ctx):
         ctx.count(key_of(c))
         if not v["accept"]:
             ctx.reject({"case": c, "cli": cli, "trace": tr}, v["failed"], signature(c))
+        elif tr["mode"] == "valid":
+            valid_acc.append(tr)
         else:
             in_domain.append(tr)
         if tid in (1, n_tlc // 2, n_tlc, n_tlc + 1):
@@ -384,6 +414,14 @@ def run(ctx):
             ctx.negative_controls("PinTsvTrace", "Trace.cfg", bad, name=name)
     elif not ctx.violations:
         raise MachineryError("too few accepted traces for negative controls")
+    if valid_acc:
+        bad = []
+        for j, i in enumerate(crng.integers(0, len(valid_acc), 120)):
+            b = copy.deepcopy(valid_acc[int(i)])
+            b["valid_in"] = not b["valid_in"]
+            b["tid"] = j + 1
+            bad.append(b)
+        ctx.negative_controls("PinTsvTrace", "Trace.cfg", bad, name="validity verdict of an arbitrary text flipped")
     ctx.assume("field values contain no tab / newline / carriage return and no line starts or ends with a blank or "
                "an empty field (the statement's domain: strip() then only removes the line terminator)")
     ctx.assume("a DefaultDirection line is a second line whose first field is exactly 'DefaultDirection' "
@@ -397,8 +435,10 @@ def run(ctx):
         rule="cases = every structure (features 0..2, protein column position 1..ncol, DefaultDirection none/short/full, "
              "trailing newline y/n, 1..%d PSM lines x 1..3 proteins each) enumerated by TLC from PinTsv.tla Init, "
              "rendered with distinct field values, plus seeded random texts (<=30 PSM lines, 0..12 features, <=6 "
-             "proteins, empty inner fields, ':' and blanks inside values); distinct = distinct (source, structure)"
-             % (2 if ctx.quick else 3),
+             "proteins, empty inner fields, ':' and blanks inside values), plus every validity-only shape enumerated by TLC "
+             "from PinValid.tla (header 1..%d fields, 1..%d data lines each narrower, equal or wider than the header, "
+             "DefaultDirection line y/n); distinct = distinct (source, structure)"
+             % (2 if ctx.quick else 3, 3 if ctx.quick else 4, 3 if ctx.quick else 4),
         exhaustive=True)
 
 
